@@ -12,7 +12,7 @@ import tempfile
 PROPERTY = 'C16'
 LEVEL = 'exploration'
 RULE = ('one case = (command method, arguments, device response sequence over '
-        '{INFO, OKAY, DATA(size ok), DATA(other size), FAIL, garbage}) or (download '
+        '{INFO (with text or bare), OKAY (with text or bare), DATA(size ok), DATA(other size), FAIL, garbage}) or (download '
         'source kind, image size around multiples of the chunk size, response '
         'sequence, progress-callback behaviour); packets received by the fake '
         'bootloader, return value, exception class/text, INFO callbacks and progress '
